@@ -94,6 +94,10 @@ def run_one(rep, P, cls, method, n, order, gen_kind, rule_id='R-E2E', dim=None, 
                 continue
             sigs = [taylor_signature(e, None, vdim, kmax)] if not complex_valued else \
                 [taylor_signature(e, None, vdim, kmax, valued='u'), taylor_signature(e, None, vdim, kmax, valued='v')]
+            for which, sg in zip(('real part of f', 'imaginary part of f') if complex_valued else ('f',), sigs):
+                # (an estimate that does not contain the derivative at all has no entry to be judged below)
+                if not any(sum(alpha) == nn and not q.is_zero() for alpha, q in sg.items()):
+                    problems.append('row %d col %d: no f^(%d) term of the %s in the estimate' % (i, c, nn, which))
             for alpha, p in [it for sg in sigs for it in sorted(sg.items())]:
                 k = sum(alpha)
                 res, unres, notes = P.reg.resolve(p)
